@@ -24,8 +24,8 @@ DENOMS = [2, 4, 8, 16]
 
 @st.composite
 def wellformed_notes(draw, channels=(0, 1), pitches=(60, 61, 62, 64), max_notes=8, max_len=60, max_gap=40,
-                     unit=1, lengths=None, start_max=40, short_bias=True):
-    vel_extremes = [1, 127]
+                     unit=1, lengths=None, start_max=40, short_bias=True, silent=False):
+    vel_extremes = [0, 1, 127] if silent else [1, 127]
     if channels == "pool":
         channels = draw(channel_pool())
         vel_extremes = [0, 1, 127]          # a hand-built note-on may carry velocity 0 (a silent note; it still has a note-off)
